@@ -337,12 +337,13 @@ func init() {
 
 	// ------------------------------------------------------------------ C16
 	register("C16", func(c *engine.Ctx) {
-		c.Rule = "random schemas (all features; titles up to 60 characters, enums of up to 12 members) x pairs of option sets differing in exactly one option: --only-models (same type declarations; no func, var, or import besides those types need), --tags (equal after erasing tags), --capitalization / --struct-name-from-title / --schema-root-type (equal after abstracting declared identifiers), --extra-imports (equal after deleting the YAML methods and the yaml import; the JSON behaviour of the two compiled programs is the same on the documents). Distinct = distinct (option, schema shape)."
+		c.Rule = "random schemas (all features; titles up to 60 characters, enums of up to 12 members) x pairs of option sets differing in exactly one option: --only-models (same type declarations; no func, var, or import besides those types need), --tags (equal after erasing tags), --capitalization / --struct-name-from-title / --schema-root-type (equal after abstracting declared identifiers; --schema-root-type also at the command line: invocations with and without it for a referenced and for the main schema x other per-schema flags {none, package + output, output only, package only} x stdout / -o x one or both files as arguments), --extra-imports (equal after deleting the YAML methods and the yaml import; the JSON behaviour of the two compiled programs is the same on the documents). Distinct = distinct (option, schema shape)."
 		c.Proofs([]string{"GJS.Props.C16"}, []string{
 			"GJS.Props.C16.minSized_off_is_identity", "GJS.Props.C16.rootName_mapping_wins", "GJS.Props.C16.rootName_title_only_with_flag",
+			"GJS.Props.C16.rootType_flag_never_changes_routing", "GJS.Props.C16.rootType_alone_keeps_routing", "GJS.Props.C16.rootType_alone_sets_root", "GJS.Props.C16.package_without_output_is_external",
 			"GJS.Props.C16.tags_only_in_tag_text", "GJS.Props.C16.yaml_import_iff_extraImports", "GJS.Props.C16.onlyModels_enum_has_no_methods",
 		})
-		factsOf(c, "optionReads")
+		factsOf(c, "optionReads", "cliOrder")
 		tmp, _ := os.MkdirTemp("", "gjsc16")
 		defer os.RemoveAll(tmp)
 		fails := 0
@@ -497,6 +498,64 @@ func init() {
 			}
 		}
 		breaks(c, res, map[string]bool{"gen": true, "summary": true, "imports": true}, fails > 0)
+		// the per-schema naming flag at the COMMAND LINE (main.go assembles the schema mappings): two invocations that
+		// differ only in `--schema-root-type ID=Name` must write the same files with the same declarations up to
+		// identifiers, whatever other per-schema flags the id has (none; package + output; package only = external)
+		if bin := buildCLI(c); bin != "" {
+			address := `{"$id":"urn:addr","type":"object","properties":{"street":{"type":"string","minLength":1},"zip":{"type":"string","pattern":"^[0-9]+$"}},"required":["street"]}`
+			mainDoc := `{"$id":"urn:main","type":"object","properties":{"name":{"type":"string"},"home":{"$ref":"address.json"}},"required":["name"]}`
+			flagSets := map[string][]string{
+				"no-other-flag":      {},
+				"package-and-output": {"--schema-package", "urn:addr=example.com/m/geo", "--schema-output", "urn:addr=geo/address.go"},
+				"output-only":        {"--schema-output", "urn:addr=address.go"},
+				"package-only":       {"--schema-package", "urn:addr=example.com/m/geo"},
+			}
+			for _, fname := range core.SortedKeys(flagSets) {
+				for _, target := range []string{"urn:addr=PostalAddress", "urn:main=Top"} {
+					for _, outMode := range []string{"stdout", "file"} {
+						base := []string{"-p", "example.com/m/model"}
+						if outMode == "file" {
+							base = append(base, "-o", "model.go")
+						}
+						base = append(base, flagSets[fname]...)
+						runOne := func(tag string, extra []string, files []string) cliResult {
+							wd := filepath.Join(tmp, "cli-"+fname+"-"+outMode+"-"+tag+"-"+strings.ReplaceAll(target, ":", "_"))
+							_ = os.MkdirAll(wd, 0o755)
+							_ = os.WriteFile(filepath.Join(wd, "address.json"), []byte(address), 0o644)
+							_ = os.WriteFile(filepath.Join(wd, "main.json"), []byte(mainDoc), 0o644)
+							args := append(append(append([]string{}, base...), extra...), files...)
+							return runCLI(bin, wd, "", args...)
+						}
+						for _, files := range [][]string{{"main.json"}, {"address.json", "main.json"}} {
+							a := runOne("a", nil, files)
+							b := runOne("b", []string{"--schema-root-type", target}, files)
+							c.Eval(fmt.Sprintf("cli-root-type|%s|%s|%s|%d", fname, target, outMode, len(files)))
+							view := func(r cliResult) string {
+								var parts []string
+								if r.Exit != 0 {
+									return "EXIT " + fmt.Sprint(r.Exit) + " " + clip(r.Stderr, 200)
+								}
+								parts = append(parts, "stdout:"+declSet(eraseTags(r.Stdout), nil, true))
+								for _, fn := range core.SortedKeys(r.Files) {
+									if strings.HasSuffix(fn, ".go") {
+										parts = append(parts, fn+":"+declSet(eraseTags(r.Files[fn]), nil, true))
+									}
+								}
+								return strings.Join(parts, "\n=====\n")
+							}
+							if view(a) != view(b) {
+								fails++
+								if fails <= 3 {
+									c.Fail("oracle", fmt.Sprintf("command line: adding --schema-root-type %s (other flags: %s, output to %s, arguments %v) changes more than identifiers", target, fname, outMode, files),
+										M{"kind": "cli-pair", "flags": base, "added": []string{"--schema-root-type", target}, "files": M{"address.json": address, "main.json": mainDoc}, "args": files,
+											"without": clip(view(a), 1500), "with": clip(view(b), 1500), "stderr_with": clip(b.Stderr, 300)}, false)
+								}
+							}
+						}
+					}
+				}
+			}
+		}
 		c.FactsVerdict(fails > 0)
 	})
 }
